@@ -42,7 +42,7 @@ def shards(tier, seed):
     for lo, hi in year_ranges(tier):
         for a in range(lo, hi, step):
             out.append(('years', a, min(a + step, hi)))
-    out += [('small', 0, 0), ('triples', 0, 0), ('e2e', 0, 0)]
+    out += [('small', 0, 0), ('triples', 0, 0), ('e2e', 0, 0), ('seq', 0, 0)]
     return out
 
 
@@ -238,12 +238,47 @@ def run_e2e(sv, res):
                 res.outcome('e2e-agree')
 
 
+SEQ_STRINGS = ['2004-08', '2004-08-15', '2004-W08', '08:15', '2004-08-15T08:15', '5', '2004', '0008-08', '10000-01', '2004-13', '24:00', 'x', '', '2004-02-30']
+
+
+def run_sequences(pv, res):
+    """Every ordered pair of calls (type1, s1), (type2, s2) over 7 types x 14 strings: the second result must be the stand-alone result
+    (validity must not leak from one input type to another, nor from one string to the next)."""
+    types = list(C.RANGE_TYPES)
+    alpha = [(t, s) for t in types for s in SEQ_STRINGS]
+    for (t1, s1) in alpha:
+        for (t2, s2) in alpha:
+            if s1 != s2 and t1 != t2:
+                continue            # only pairs that share the string or the type can interfere through a memo
+            try:
+                pv(t1, s1)
+                got = pv(t2, s2)
+            except Exception as e:
+                res.fail({'layer': 'seq', 'calls': [[t1, s1], [t2, s2]]}, {'kind': 'raise', 'type': t2, 'exc': type(e).__name__}, f'{e!r}')
+                continue
+            want = C.parse(t2, s2)
+            res.evaluations += 1
+            ok = (got is None) == (want is None) and (want is None or tuple(got) == tuple(want))
+            if not ok:
+                res.fail({'layer': 'seq', 'calls': [[t1, s1], [t2, s2]]},
+                         {'kind': 'history-dependent-validity', 'same_string': s1 == s2, 'same_type': t1 == t2},
+                         f'parse_value({t1!r}, {s1!r}) then parse_value({t2!r}, {s2!r}) = {got!r}; alone it must be {want!r}')
+            else:
+                res.outcome('sequence-independent')
+                if want is not None:
+                    res.nontrivial += 1
+
+
 def run_shard(desc):
     from .. import common
     sv = common.bind()
     warnings.simplefilter('ignore')
     res = shard.Result()
     pv = seam(sv)
+    if desc[0] == 'seq':
+        if pv is not None:
+            run_sequences(pv, res)
+        return res
     if desc[0] in ('years', 'small'):
         if pv is None:
             res.extra['seam_missing'] = 'Inputs.parse_value not found: string layers skipped, public-API layers still run'
@@ -265,6 +300,13 @@ def replay(case):
     res = shard.Result()
     if case['layer'] == 'string':
         return check_string(seam(sv), case['type'], case['s'], res)
+    if case['layer'] == 'seq':
+        pv = seam(sv)
+        (t1, s1), (t2, s2) = case['calls']
+        pv(t1, s1)
+        got, want = pv(t2, s2), C.parse(t2, s2)
+        ok = (got is None) == (want is None) and (want is None or tuple(got) == tuple(want))
+        return None if ok else ({'kind': 'history-dependent-validity'}, f'{got!r} vs {want!r}')
     if case['layer'] == 'triple':
         t = case['type']
         attrs = [('type', t)] + [(k, case[k]) for k in ('min', 'max', 'value') if case[k] is not None]
